@@ -58,6 +58,9 @@ fn materialise_ordered(root: &Path, files: &Value, order: &Value) {
                             .expect("harness: write");
                     } else if o.contains_key("dir") {
                         std::fs::create_dir_all(&p).expect("harness: mkdir");
+                    } else if o.contains_key("fifo") {
+                        let st = std::process::Command::new("mkfifo").arg(&p).status();
+                        assert!(st.map(|s| s.success()).unwrap_or(false), "harness: mkfifo");
                     } else if let Some(t) = o.get("symlink") {
                         std::os::unix::fs::symlink(t.as_str().unwrap(), &p)
                             .expect("harness: symlink");
